@@ -8,6 +8,7 @@ import (
 	"strings"
 	"sync"
 	"sync/atomic"
+	"unicode/utf8"
 
 	ledger "github.com/formancehq/ledger/internal"
 	"github.com/formancehq/ledger/internal/engine/command"
@@ -53,9 +54,13 @@ func c13Shapes(thorough bool) (all []logShape, chainAlphabet []logShape) {
 		"offset": mustTime("2023-05-06T07:08:09+02:00"),
 		"y9999":  mustTime("9999-12-31T23:59:59.999999Z"),
 	}
-	amounts := map[string]*big.Int{"0": big.NewInt(0), "1": big.NewInt(1), "2p64": new(big.Int).Lsh(big.NewInt(1), 64), "2p200": new(big.Int).Lsh(big.NewInt(1), 200)}
+	// (huge amounts that are NOT round in binary or decimal matter: a lossy decoder keeps 2^64 and 10^27 intact)
+	ten30p7, _ := new(big.Int).SetString("1000000000000000000000000000007", 10)
+	amounts := map[string]*big.Int{"0": big.NewInt(0), "1": big.NewInt(1), "2p64": new(big.Int).Lsh(big.NewInt(1), 64), "2p200": new(big.Int).Lsh(big.NewInt(1), 200),
+		"2p64+1": new(big.Int).Add(new(big.Int).Lsh(big.NewInt(1), 64), big.NewInt(1)), "2p200-1": new(big.Int).Sub(new(big.Int).Lsh(big.NewInt(1), 200), big.NewInt(1)), "1e30+7": ten30p7}
 	metas := map[string]metadata.Metadata{"nil": nil, "empty": {}, "ascii": {"k": "v", "a": "b"}, "unicode": {"clé": "välue ✓   \"q\" <&>"}, "emptykey": {"": ""}}
-	keys := map[string]string{"none": "", "ascii": "key-1", "unicode": "ключ✓", "long": strings.Repeat("k", 255)}
+	// "rawbytes": not valid UTF-8 - reachable through an Idempotency-Key header or a percent-encoded URL segment
+	keys := map[string]string{"none": "", "ascii": "key-1", "unicode": "ключ✓", "long": strings.Repeat("k", 255), "rawbytes": "a\xffb"}
 	txids := map[string]*big.Int{"0": big.NewInt(0), "7": big.NewInt(7), "2p63": new(big.Int).Lsh(big.NewInt(1), 63)}
 	if thorough {
 		txids["2p64-1"] = new(big.Int).Sub(new(big.Int).Lsh(big.NewInt(1), 64), big.NewInt(1))
@@ -81,7 +86,11 @@ func c13Shapes(thorough bool) (all []logShape, chainAlphabet []logShape) {
 							if m != nil {
 								am = map[string]metadata.Metadata{"acc:0": m}
 							}
-							return ledger.NewTransactionLogWithDate(mkTx(big.NewInt(3), s, a, m, k, 2), am, d).WithIdempotencyKey(k)
+							ref := k
+							if !utf8.ValidString(ref) {
+								ref = "key-1" // a reference travels in a JSON body: the decoder never yields invalid UTF-8
+							}
+							return ledger.NewTransactionLogWithDate(mkTx(big.NewInt(3), s, a, m, ref, 2), am, d).WithIdempotencyKey(k)
 						})
 						if mn == "ascii" || thorough {
 							add("REVERTED_TRANSACTION "+name, func() *ledger.Log {
@@ -107,7 +116,8 @@ func c13Shapes(thorough bool) (all []logShape, chainAlphabet []logShape) {
 					})
 				}
 			}
-			for _, mk := range []string{"k", "clé", ""} {
+			// (a metadata key to delete arrives in the URL path: percent-encoded raw bytes are possible)
+			for _, mk := range []string{"k", "clé", "", "raw\xffbytes"} {
 				mk := mk
 				name := fmt.Sprintf("date=%s ik=%s key=%q", dn, kn, mk)
 				add("DELETE_METADATA account "+name, func() *ledger.Log {
@@ -302,7 +312,8 @@ func c13() int {
 		if len(cur) == histLen {
 			return
 		}
-		for i := range ops {
+		// i: the write for real; i+len(ops): the same write as a preview (it must leave the chain untouched)
+		for i := 0; i < 2*len(ops); i++ {
 			rec(append(cur, i))
 		}
 	}
@@ -318,11 +329,17 @@ func c13() int {
 				if withIK {
 					ik = fmt.Sprintf("key-%d", i)
 				}
+				preview := o >= len(ops)
+				o := o % len(ops)
 				func() {
 					defer func() { recover() }()
-					ops[o].Run(e, command.Parameters{IdempotencyKey: ik})
+					ops[o].Run(e, command.Parameters{IdempotencyKey: ik, DryRun: preview})
 				}()
-				names = append(names, ops[o].Name)
+				if preview {
+					names = append(names, "PREVIEW("+ops[o].Name+")")
+				} else {
+					names = append(names, ops[o].Name)
+				}
 			}
 			e.Stop()
 			var prev *ledger.ChainedLog
